@@ -75,7 +75,14 @@ class World:
     def _make(self, it):
         t = it["t"]
         if t == "env":
-            e = Envelope()
+            if it.get("parts"):
+                # the caller builds the parts and hands them to the envelope (label through the constructor)
+                pi = it.get("pol")
+                f = Fock()
+                p = Polarization(PolarizationLabel[pi["l"]]) if pi and pi["k"] == "label" else Polarization()
+                e = Envelope(wavelength=float(it.get("wavelength", 1550)), fock=f, polarization=p)
+            else:
+                e = Envelope()
             self._reg(it["name"], e)
             self._reg(it["name"] + ".f", e.fock)
             self._reg(it["name"] + ".p", e.polarization)
